@@ -144,6 +144,10 @@ func (regWorld) Gen(prop, tier string, idx int, r *Rng) *Trace {
 	}
 	var ops []Op
 	registered := 0
+	if r.Chance(1, 8) {
+		// the very first use of the library in this process is a registration under a built-in name
+		ops = append(ops, Op{K: "register", S: all[nNames+r.Intn(2)], T: regKinds[r.Intn(len(regKinds))], D: 7})
+	}
 	for i := 0; i < n; i++ {
 		switch r.Weighted(w) {
 		case 0: // register
@@ -339,6 +343,14 @@ func buildRegProbes(names []string) []regProbe {
 			add(regProbe{name: "json/eat-profile=" + n + " (literal spelling)", ser: "json", doc: jsonEdit(j, "eat-profile", lit, false), declares: []string{n}, members: map[string]string{"eat-profile": n}})
 		}
 		add(regProbe{name: "json/psa-profile=" + n, ser: "json", doc: enc(d1, true), declares: []string{n}, members: map[string]string{"psa-profile": n}, p1claim: &n})
+		// a profile-1 shaped, profile-1 valid body that declares n through the profile-2 member
+		{
+			dq := *p1
+			dq.ProfClaim = nil
+			if j := enc(dq, true); j != nil {
+				add(regProbe{name: "json/p1 body eat-profile=" + n, ser: "json", doc: jsonEdit(j, "eat-profile", quote(n), false), declares: []string{n}, members: map[string]string{"eat-profile": n}})
+			}
+		}
 		// a member whose NAME is the empty string is just an unknown member, whatever it holds
 		if j := enc(d2, true); j != nil {
 			add(regProbe{name: "json/eat-profile=" + n + ` +""=PSA_IOT_PROFILE_1`, ser: "json", doc: jsonEdit(j, "", quote(psatoken.Profile1Name), false), declares: []string{n}, members: map[string]string{"eat-profile": n}})
@@ -818,6 +830,25 @@ func (regWorld) Exec(prop string, t *Trace) *Result {
 	c16 := prop == "C16"
 	c07 := prop == "C07"
 
+	// a leading registration (D=7) is made before the harness itself looks anything up
+	var firstReg struct {
+		done bool
+		err  error
+	}
+	if len(t.Ops) > 0 && t.Ops[0].K == "register" && t.Ops[0].D == 7 {
+		if prof := profileOfKind(t.Ops[0].T, t.Ops[0].S); prof != nil && t.Ops[0].S != "" && !(kindNeedsURI[t.Ops[0].T] && !isURIName(t.Ops[0].S)) {
+			func() {
+				defer func() {
+					if r := recover(); r != nil {
+						firstReg.err = fmt.Errorf("panic: %v", r)
+					}
+				}()
+				firstReg.err = psatoken.RegisterProfile(prof)
+			}()
+			firstReg.done = true
+			res.Probes["registration_as_first_use_of_the_library"]++
+		}
+	}
 	model := map[string]string{psatoken.Profile1Name: "p1", psatoken.Profile2Name: "p2"}
 	probes := buildRegProbes(cfg.Names)
 	if len(probes) < 10 {
@@ -1088,14 +1119,19 @@ func (regWorld) Exec(prop string, t *Trace) *Result {
 			}
 			before := snapshot()
 			var err error
-			func() {
-				defer func() {
-					if r := recover(); r != nil {
-						err = fmt.Errorf("panic: %v", r)
-					}
+			if i == 0 && firstReg.done {
+				// already made, before anything else (its "before" is not observable without a lookup)
+				err = firstReg.err
+			} else {
+				func() {
+					defer func() {
+						if r := recover(); r != nil {
+							err = fmt.Errorf("panic: %v", r)
+						}
+					}()
+					err = psatoken.RegisterProfile(prof)
 				}()
-				err = psatoken.RegisterProfile(prof)
-			}()
+			}
 			after := snapshot()
 			_, exists := model[name]
 			wantOK := !exists && goodKind(kind)
@@ -1265,6 +1301,39 @@ func (regWorld) Exec(prop string, t *Trace) *Result {
 			base := dispatch(p)
 			shape += "D" + p.ser
 			checkDispatch(i, p, base)
+			if c07 && p.ser == "json" {
+				// the deprecated names are the same functions under older names
+				old1 := safely(func() string {
+					c, err := psatoken.DecodeUnvalidatedJSONClaims(append([]byte{}, p.doc...)) //nolint:staticcheck
+					if err != nil || c == nil {
+						return "err"
+					}
+					return fmt.Sprintf("ok|%T|%s", c, getterObs(c))
+				})
+				want1 := "err"
+				if base.ok {
+					want1 = "ok|" + base.typ + "|" + base.obs
+				}
+				vok, vc := dispatchValidating(p)
+				want2 := "err"
+				if vok && vc != nil {
+					want2 = fmt.Sprintf("ok|%T|%s", vc, getterObs(vc))
+				}
+				old2 := safely(func() string {
+					c, err := psatoken.DecodeJSONClaims(append([]byte{}, p.doc...)) //nolint:staticcheck
+					if err != nil || c == nil {
+						return "err"
+					}
+					return fmt.Sprintf("ok|%T|%s", c, getterObs(c))
+				})
+				res.Evals++
+				if old1 != want1 {
+					res.violate("C07", "deprecated-name-differs", "DecodeUnvalidatedJSONClaims", i, "%s: DecodeUnvalidatedJSONClaims answers %s, DecodeClaimsFromJSON %s", p.name, head([]byte(old1), 160), head([]byte(want1), 160))
+				}
+				if old2 != want2 {
+					res.violate("C07", "deprecated-name-differs", "DecodeJSONClaims", i, "%s: DecodeJSONClaims answers %s, DecodeAndValidateClaimsFromJSON %s", p.name, head([]byte(old2), 160), head([]byte(want2), 160))
+				}
+			}
 			if c07 && p.pair != "" && base.ok {
 				// "in CBOR and in JSON alike": the same claims-set in the other serialisation, when it is
 				// handed to the same implementation, gets the same verdict
